@@ -16,6 +16,7 @@ type StreamSpec struct {
 	Corpus     func() []any
 	Gen        func(g *Gen, i int) (in any, note string)
 	Impl       func(in any) any
+	ImplBatch  func(ins []any) []any // when set, used instead of Impl for the whole run (child processes)
 	Compare    func(c *Case, out any) []Finding
 	Nontrivial func(c *Case) bool
 	Rule       string
@@ -24,7 +25,11 @@ type StreamSpec struct {
 
 func (s *StreamSpec) register() *StreamSpec {
 	replayers[s.Op] = func(c *Case) []Finding {
-		c.Impl = s.Impl(c.In)
+		if s.ImplBatch != nil {
+			c.Impl = s.ImplBatch([]any{c.In})[0]
+		} else {
+			c.Impl = s.Impl(c.In)
+		}
 		out, err := runDriver([]*Case{c})
 		if err != nil {
 			return []Finding{{Kind: "obligation", Stream: s.Name, Detail: err.Error()}}
@@ -57,8 +62,19 @@ func (s *StreamSpec) Run(ctx *Ctx) StreamResult {
 		}
 		add(in, fmt.Sprintf("seed=%d stream=%d index=%d %s", ctx.Seed, s.Stream, i, note), g.feat)
 	}
+	if s.ImplBatch != nil {
+		ins := make([]any, len(cases))
+		for i, c := range cases {
+			ins[i] = c.In
+		}
+		for i, a := range s.ImplBatch(ins) {
+			cases[i].Impl = a
+		}
+	}
 	for _, c := range cases {
-		c.Impl = s.Impl(c.In)
+		if s.ImplBatch == nil {
+			c.Impl = s.Impl(c.In)
+		}
 		mergeFeat(res.Features, c.Feat)
 		res.Features["impl:"+outcomeTag(c.Impl)]++
 	}
